@@ -72,7 +72,11 @@ def job_script(rng, n, cores=None, trace=True):
 
 
 def run_tsan_script(exe, script):
-    rc, out, err = vlib.run([exe], inp=script, timeout=180, env=TSAN_ENV)
+    try:
+        rc, out, err = vlib.run([exe], inp=script, timeout=180, env=TSAN_ENV)
+    except FileNotFoundError:   # build cache pruned by a concurrent check of another tree
+        exe = vlib.build_harness("dispatch_driver", "tsan")
+        rc, out, err = vlib.run([exe], inp=script, timeout=180, env=TSAN_ENV)
     reps = tsan_reports(err)
     bad = []
     if rc == -999:
@@ -88,7 +92,11 @@ def run_tsan_script(exe, script):
 
 
 def run_parjob(exe, args):
-    rc, out, err = vlib.run([exe] + [str(a) for a in args], timeout=240, env=TSAN_ENV)
+    try:
+        rc, out, err = vlib.run([exe] + [str(a) for a in args], timeout=240, env=TSAN_ENV)
+    except FileNotFoundError:
+        exe = vlib.build_harness("parjob_driver", "tsan")
+        rc, out, err = vlib.run([exe] + [str(a) for a in args], timeout=240, env=TSAN_ENV)
     reps = tsan_reports(err)
     bad = []
     if rc == -999:
@@ -156,7 +164,7 @@ def run(ctx):
         for f in sorted(os.listdir(CORPUS)):
             if f.endswith(".ops"):
                 scripts.append(open(os.path.join(CORPUS, f)).read())
-    reps_per = 12 if ctx.thorough else 3
+    reps_per = 100 if ctx.thorough else 8
     for n in wlist:
         for _ in range(reps_per):
             scripts.append(job_script(rng, n))
@@ -176,7 +184,7 @@ def run(ctx):
     # ---- (b) dispatcher under TSan (no tracing: the hook must not add synchronisation)
     tscripts = []
     for n in (wlist if ctx.thorough else [1, 2, 4, 16, 32]):
-        for _ in range(6 if ctx.thorough else 3):
+        for _ in range(60 if ctx.thorough else 10):
             tscripts.append(job_script(rng, n, trace=False))
     tscripts.append(job_script(rng, 0, cores=1, trace=False))
     with ThreadPoolExecutor(4) as ex:
@@ -201,7 +209,7 @@ def run(ctx):
     jobs = []
     jw = (list(range(1, 33)) + [0]) if ctx.thorough else [1, 2, 4, 7, 15, 16, 24, 32, 0]
     for w in jw:
-        for _ in range(8 if ctx.thorough else 3):
+        for _ in range(80 if ctx.thorough else 10):
             eff = w if w else cores - 1
             if open_buffers and eff >= cores:
                 continue                                   # avoid predicate of the open finding
